@@ -12,7 +12,7 @@ From Coq Require Import List ZArith NArith Bool.
 From BBS Require Import Common.Sx Buffer.Source Buffer.Validate Buffer.Convert Buffer.ErrHandler
   Buffer.StreamProofs Buffer.ValidateProofs Buffer.ErrHandlerProofs Buffer.ClosedOnceProofs
   Buffer.ErrHandlerStackProofs Buffer.StackRuleProofs Buffer.ValidateReaderProofs Buffer.ConvertProofs
-  Buffer.EHFullCarry Buffer.EHFullReader Buffer.EHFullMethods Buffer.EHFullStack Buffer.EHFullPrefix Buffer.EHFullExact Buffer.EHFullStackExact Buffer.EHFullStacking Buffer.EHFullCompleted Buffer.EHFullMon Buffer.EHFullMon3 Run.R09 Run.R16 Run.R16Proofs.
+  Buffer.EHFullCarry Buffer.EHFullReader Buffer.EHFullMethods Buffer.EHFullStack Buffer.EHFullPrefix Buffer.EHFullExact Buffer.EHFullStackExact Buffer.EHFullStacking Buffer.EHFullCompleted Buffer.EHFullPartial Buffer.EHFullMon Buffer.EHFullMon3 Run.R09 Run.R16 Run.R16Proofs.
 Import ListNotations.
 Open Scope N_scope.
 
@@ -230,6 +230,32 @@ Theorem whole_stack_reader_stream_is_the_specification : forall fuel b0 anss b w
   (let '(p0, t0) := piece_of b0 0 in stitch_stack p0 t0 anss) = (out, e, oews (sr_w r')).
 Proof. exact whole_stack_reader_stream. Qed.
 Print Assumptions whole_stack_reader_stream_is_the_specification.
+
+(** Runs that stop early (a validating reader stops reading as soon as it
+    knows the stream is too long): whatever has been pulled out of the nested
+    readers is a PREFIX of the specification's stream, and every level's OnError
+    arguments so far are its earlier ones followed by a prefix ([lpre]) of the
+    offers the specification lists for it — at any offset, also for replacement
+    buffers opened beyond their end.  (Buffer/EHFullPartial.v) *)
+Theorem stack_chunk_stream_pulled_is_prefix_of_the_specification : forall ifuel fuel max b w out r',
+  pulls (sch_read ifuel fuel max) (sch_init ifuel b w) out r' ->
+  wf_buf b -> hs_wf (w_act w) -> w_act w <> [] ->
+  Forall (fun h => ~ In EFuel (oel h)) (lv (sc_w r')) ->
+  exists rest e offss qss,
+    (let '(p, t) := piece_of b 0 in stitch_stack p t (map h_answers (w_act w))) = (out ++ rest, e, offss) /\
+    oews (sc_w r') = map oel (w_dn w) ++ zipo (map oel (w_act w)) qss /\ Forall2 lpre qss offss.
+Proof. exact stack_chunk_pulled_is_prefix. Qed.
+Print Assumptions stack_chunk_stream_pulled_is_prefix_of_the_specification.
+
+Theorem stack_reader_stream_pulled_is_prefix_of_the_specification : forall fuel b w out r',
+  rpulls (shr_read fuel) (shr_init fuel b w) out r' ->
+  wf_buf b -> hs_wf (w_act w) -> w_act w <> [] ->
+  Forall (fun h => ~ In EFuel (oel h)) (lv (sr_w r')) ->
+  exists rest e offss qss,
+    (let '(p, t) := piece_of b 0 in stitch_stack p t (map h_answers (w_act w))) = (out ++ rest, e, offss) /\
+    oews (sr_w r') = map oel (w_dn w) ++ zipo (map oel (w_act w)) qss /\ Forall2 lpre qss offss.
+Proof. exact stack_reader_pulled_is_prefix. Qed.
+Print Assumptions stack_reader_stream_pulled_is_prefix_of_the_specification.
 
 (** At the level of the model's outcome: if a streaming method (IntoWriter,
     ToChunkReader at any offset / chunk size, ToReader with any read sizes) on a
